@@ -26,7 +26,8 @@ VaddrClass == {"le_base", "gt_base"}
 DynClass == {"terminated", "unterminated"}
 ListClass == {"acyclic", "cyclic", "selfloop", "dangling", "name_nonutf8", "name_at_end", "empty"}
 NameClass == {"plain", "dev", "version_multibyte", "no_version", "many_components", "deleted"}
-BytesClass == {"elf", "non_elf", "elf_corrupt", "elf_undyn"}   \* elf_undyn: an image whose dynamic section has no DT_NULL within its declared size
+BytesClass == {"elf", "non_elf", "elf_corrupt", "elf_undyn", "elf_badnote"}   \* elf_undyn: an image whose dynamic section has no DT_NULL within its declared size;
+                                                                            \* elf_badnote: its note segment / section starts with a note that cannot be decoded
 NDyn == 3                                                       \* entries of a module's dynamic section before its end / DT_NULL
 Input == [sp : SpClass, ip : IpClass, phnum : PhnumClass, phdr : PhdrClass, vaddr : VaddrClass, dyn : DynClass,
           list : ListClass, name : NameClass, bytes : BytesClass, app : AppClass]
@@ -92,10 +93,17 @@ Names     == /\ pc = "names"
 (* module list: build id from memory, else from the file unless it lives under /dev; name / version from the path *)
 Modules   == /\ pc = "modules"
              /\ opened' = IF inp.bytes \in {"non_elf", "elf_corrupt"} /\ inp.name # "dev" /\ inp.name # "deleted" THEN opened \cup {"file"} ELSE opened
-             /\ IF inp.bytes \in {"elf", "elf_undyn"}
-                  THEN pc' = "soscan" /\ dynpos' = 1 /\ UNCHANGED outcome        \* a build id was found: the SONAME is looked up
+             /\ IF inp.bytes \in {"elf", "elf_undyn", "elf_badnote"}
+                  THEN pc' = "notescan" /\ UNCHANGED <<outcome, dynpos>>            \* an ELF header: the notes are searched for a build id
                   ELSE pc' = "done" /\ outcome' = "ok" /\ UNCHANGED dynpos
              /\ UNCHANGED <<inp, softErrs, cur, count>>
+(* for note in NoteDataIterator { let Ok(note) = note else { break }; .. }: the iterator does not move past a note it cannot
+   decode; the scan gives up there (the id then comes from the text section), or - if it skipped errors - would ask again for ever *)
+NoteScan  == /\ pc = "notescan"
+             /\ IF inp.bytes = "elf_badnote" /\ ~StopOnDecodeError
+                  THEN UNCHANGED <<pc, dynpos>>
+                  ELSE pc' = "soscan" /\ dynpos' = 1
+             /\ UNCHANGED <<inp, outcome, softErrs, opened, cur, count>>
 (* for dyn in DynIter(dynamic section) { match dyn.d_tag ... DT_NULL => break }: entry NDyn + 1 is DT_NULL in a well-formed
    image; in an "elf_undyn" image it lies beyond the declared size and cannot be decoded, and asking again gives the same answer *)
 SoScan    == /\ pc = "soscan"
@@ -105,7 +113,7 @@ SoScan    == /\ pc = "soscan"
                     THEN UNCHANGED <<pc, outcome, dynpos>>                          \* skip the undecodable entry, ask for the next: the same one
                     ELSE pc' = "done" /\ outcome' = "ok" /\ UNCHANGED dynpos         \* DT_NULL, or the lookup gives up with an error value (no SONAME)
              /\ UNCHANGED <<inp, softErrs, opened, cur, count>>
-Next == StackStep \/ IpWindow \/ AppMem \/ PhdrStep \/ BaseStep \/ DynScan \/ Walk \/ Names \/ Modules \/ SoScan
+Next == StackStep \/ IpWindow \/ AppMem \/ PhdrStep \/ BaseStep \/ DynScan \/ Walk \/ Names \/ Modules \/ NoteScan \/ SoScan
 Spec == Init /\ [][Next]_vars /\ WF_vars(Next)
 
 Total == outcome \in {"running", "ok", "err"}
